@@ -192,6 +192,37 @@ def benign(args):
     return 0
 
 
+def benign_recheck(args):
+    root = os.path.join(HERE, 'benign')
+    ids = args.benign_ids or sorted(os.listdir(root))
+    alarms = 0
+    for bid in ids:
+        mpath = os.path.join(root, bid, 'meta.json')
+        if not os.path.exists(mpath):
+            continue
+        meta = json.load(open(mpath))
+        base, wt, rc, out = scratch_tree(os.path.join(root, bid, 'patch.diff'))
+        try:
+            if rc:
+                print(bid, 'patch no longer applies')
+                continue
+            for prop in sorted(meta['checks']):
+                rc, lines = run_check(prop, wt, args.tier)
+                meta['checks'][prop] = {'tier': args.tier, 'exit': rc,
+                                        'output': lines[:6]}
+                alarms += rc != 0
+                print(f'{bid} {prop} ({args.tier}) exit {rc}'
+                      + ('' if rc == 0 else '   <-- ALARM'))
+            meta['silent'] = all(c['exit'] == 0
+                                 for c in meta['checks'].values())
+        finally:
+            drop_tree(base, wt)
+        with open(mpath, 'w') as fout:
+            json.dump(meta, fout, indent=1)
+    print('alarms:', alarms)
+    return 1 if alarms else 0
+
+
 def main():
     ap = argparse.ArgumentParser()
     sub = ap.add_subparsers(dest='cmd', required=True)
@@ -209,9 +240,12 @@ def main():
     b.add_argument('benign_id')
     b.add_argument('props', nargs='+')
     b.add_argument('--tier', default='quick')
+    br = sub.add_parser('benign-recheck')
+    br.add_argument('benign_ids', nargs='*')
+    br.add_argument('--tier', default='quick')
     args = ap.parse_args()
-    sys.exit({'confirm': confirm, 'recheck': recheck,
-              'benign': benign}[args.cmd](args))
+    sys.exit({'confirm': confirm, 'recheck': recheck, 'benign': benign,
+              'benign-recheck': benign_recheck}[args.cmd](args))
 
 
 if __name__ == '__main__':
